@@ -30,7 +30,7 @@ func main() {
 	run := ev.Start("C17", "exploration")
 	run.Rule("part 1: seeded scenarios of 2-5 goroutines x 1-3 queues (max 1-3) running finite programs of acquire / try-acquire / multi-acquire (overlapping subsets, any order, duplicates) / acquire with a context cancelled before or during the wait, default and size-aware priority, GOMAXPROCS in {1,2,4,16}; plus cancel-racing-with-release scenarios in three orders; " +
 		"part 2: concurrent image copies through one client with per-host limits 1-3 against model registries that count running requests; " +
-		"part 3: seeded sequences of operations that end in every possible way (success, statuses until the retries run out, reset, body abandoned, cancelled while stalled, push whose body cannot be replayed) through one client with limit k, then k probe requests that the server holds until k are running; non-trivial = every scenario (each has contention by construction); distinct = scenario shape classes")
+		"part 4: an OCI layout's write throttle (limit 1-3) across a Close of the layout: k writers are held inside their upload by gated streams, the layout is closed, k+1 more are started and must wait; part 3: seeded sequences of operations that end in every possible way (success, statuses until the retries run out, reset, body abandoned, cancelled while stalled, push whose body cannot be replayed) through one client with limit k, then k probe requests that the server holds until k are running; non-trivial = every scenario (each has contention by construction); distinct = scenario shape classes")
 	run.Assume("the harness' holder counter is incremented after Acquire returns and decremented before release, so it under-approximates the true holder count",
 		"a server-side request counts as running from arrival until just before its first response byte, which lies inside the client's slot-holding period",
 		"deadlock is decided on state (every unfinished goroutine is inside an acquire call), never on elapsed time alone",
@@ -75,6 +75,7 @@ func main() {
 	}
 	apiWorkload(run)
 	slotConservation(run)
+	layoutThrottle(run)
 	for _, rep := range ev.RaceReports(filepath.Join(bin, "race")) {
 		if strings.Contains(rep, "internal/pqueue") || strings.Contains(rep, "internal/reqmeta") {
 			run.Violation("race/pqueue/"+firstFrame(rep), "data race involving the throttle state", rep)
